@@ -486,7 +486,9 @@ namespace hgraph
             if (is_target_position())
             {
                 const auto *link = data_.link_storage();
-                if (link != nullptr && link->tracking.last_modified_time > data.last_modified_time())
+                // Only in the cycle of that rebind: afterwards (and for a position that
+                // simply did not tick while a sibling did) there is no delta to read.
+                if (link != nullptr && link->tracking.last_modified_time > data.last_modified_time() && modified())
                 {
                     return data.value();
                 }
